@@ -117,6 +117,7 @@ func VerifHolding() {
 		}
 	}
 	sprOnlyLast := c >= specV20 && vrt.Choose("lastRatedByStakingOnly", 2) == 1
+	winnerlessInGap := gap == 2 && vrt.Choose("winnerlessOPRBlockInGap", 2) == 1
 	// setup: the committed chain state before block c, then block c's own rate rows (as
 	// InsertRates records them before the holding pass), on a given database
 	setup := func(db *sql.DB) (*Pegnetd, *sql.Tx) {
@@ -131,6 +132,22 @@ func VerifHolding() {
 				wh, []byte{1}, []byte{2}, 0, 0.0, []byte{3}, []byte{4}, 0, "m", []byte{5}); err != nil {
 				panic(err)
 			}
+		}
+		// pn_grade rows: a block graded from an OPR entry block has one (the two rated blocks unless the
+		// last one was rated by staking records alone); an unrated block in the gap has one too when it
+		// carried an OPR entry block without winners
+		gradeRow := func(h uint32) {
+			if _, err := db.Exec("INSERT INTO pn_grade (height, keymr, prevkeymr, eb_seq, shorthashes, version, cutoff, count) VALUES ($1, $2, $3, $4, $5, $6, $7, $8)",
+				h, []byte{1}, []byte{2}, 1, []byte("[]"), 1, 50, 0); err != nil {
+				panic(err)
+			}
+		}
+		gradeRow(last - 3)
+		if !sprOnlyLast {
+			gradeRow(last)
+		}
+		if winnerlessInGap {
+			gradeRow(c - 1)
 		}
 		for _, t := range assets {
 			// an older rated block, outside the averaging window of `last` (period 3)
@@ -393,6 +410,9 @@ func VerifHolding() {
 		got := uint64(vrtBalance(tx, A, t))
 		vrt.Assert("C07.balances-follow-the-conversion-formula", t == fat2.PTickerPEG || got == expBal[t])
 		vrt.Assert("C16.peg-created-per-bank-rule", t != fat2.PTickerPEG || got == expBal[t])
+		// the other side of a partly served PEG request: the refund is the unconverted part of the input,
+		// (requested - yield) PEG converted back at this block's rates, not a unit more
+		vrt.Assert("C16.refund-returns-exactly-the-unconverted-part", t == fat2.PTickerPEG || got == expBal[t])
 		vrt.Assert("C04.holding-pass-supply", got == expBal[t])
 		vrt.Assert("C03.holding-pass-balances-exact", got == expBal[t])
 		vrt.Assert("C06.held-batch-takes-effect-exactly-once", got == expBal[t])
